@@ -91,6 +91,86 @@ def gen_tie_cases(rng, count: int) -> list[dict]:
     return cases
 
 
+def gen_targeted_tie_cases(rng) -> list[dict]:
+    """Input classes named or plainly allowed by C10's quantifier that the random stream hits rarely or never (quantifier audit)."""
+    cases = []
+
+    def add(A, p, q, cfg, eps, tag, is_diag=False, **extra):
+        c = mfh.new_case(A, p, q, cfg, eps, is_diag, tag)
+        c.update(extra)
+        cases.append(c)
+
+    k = 0
+    iter_roots = [(1, 1), (2, 1), (3, 1), (4, 1), (5, 1), (6, 1), (7, 1), (8, 1)]
+    # structured PSD matrices through all four configurations
+    for kind in mfh.STRUCTURED:
+        for n in (2, 3, 4, 6):
+            scale = 10 ** rng.uniform(-6, 6)
+            A = mfh.structured(rng, n, kind, scale)
+            eps = scale * 10 ** rng.uniform(-4, -1)
+            which = k % 4
+            k += 1
+            if which == 0:
+                add(A, *rng.choice(mfh.ROOTS + mfh.ROOTS_EXTRA), ("eigen", False), eps, "struct:" + kind)
+            elif which == 1:
+                add(A, *rng.choice(mfh.ROOTS + mfh.ROOTS_EXTRA), ("eigen", True), eps, "struct:" + kind)
+            elif which == 2:
+                add(A, *iter_roots[k % 8], ("newton", 100, rng.choice([1e-6, 1e-8])), eps, "struct:" + kind)
+            else:
+                add(A, *rng.choice(iter_roots + [(3, 2), (4, 3)]), ("ho", 0.0, 100, rng.choice([1e-6, 1e-8]), rng.choice([2, 3, 4])), eps, "struct:" + kind)
+    # exactly diagonal, non-ascending diagonal: with the flag (any configuration) and without it
+    for n in (2, 5, 9):
+        scale = 10 ** rng.uniform(-6, 6)
+        A = mfh.structured(rng, n, "diag-nonascending", scale)
+        for cfg in [("eigen", False), ("eigen", True), ("newton", 100, 1e-8), ("ho", 0.0, 100, 1e-8, 3), ("unknown",)]:
+            add(A, *rng.choice(iter_roots[:4]), cfg, scale * 1e-5, "diagflag:nonascending", is_diag=True)
+        add(A, 2, 1, ("eigen", False), scale * 1e-5, "struct:diag-nonascending")
+    # roots: Fraction(r / exponent_multiplier) (eigen configurations only, as in the optimizer), large, below one
+    for (p, q) in [mfh.multiplier_root(r, m) for r in (2, 4, 8) for m in mfh.MULTIPLIERS] + mfh.ROOTS_EXTRA:
+        n = rng.randint(1, 8)
+        scale = 10 ** rng.uniform(-3, 3)
+        A = mfh.make_sym(mfh.spectrum(rng, n, rng.choice(["psd", "rankdef"]), scale, 10 ** rng.uniform(0, 5)), rng.randrange(1 << 40))
+        add(A, p, q, ("eigen", k % 2 == 0), scale * 10 ** rng.uniform(-5, -1), "root:" + ("multiplier" if q > 1000 else f"{p}/{q}"))
+        k += 1
+    for (p, q) in [(5, 1), (6, 1), (7, 1), (16, 1), (10, 1)]:           # integer roots the random stream does not use, both iterative solvers
+        n = rng.randint(2, 6)
+        A = mfh.make_sym(mfh.spectrum(rng, n, "psd", 1.0, 10 ** rng.uniform(0, 3)), rng.randrange(1 << 40))
+        add(A, p, q, ("newton", 100, 1e-8), 1e-3, f"root:{p}/{q}")
+        add(A, p, q, ("ho", 0.0, 100, 1e-8, 3), 1e-3, f"root:{p}/{q}")
+    # iteration / tolerance / order / rel_epsilon settings at their edges
+    for n in (2, 4, 7):
+        A = mfh.make_sym(mfh.spectrum(rng, n, "psd", 1.0, 10 ** rng.uniform(0, 3)), rng.randrange(1 << 40))
+        add(A, 2, 1, ("newton", 0, 1e-6), 1e-3, "setting:max_iterations=0")
+        add(A, 4, 1, ("newton", 20, 0.0), 1e-3, "setting:tolerance=0")
+        add(A, 2, 1, ("newton", 100, 1.0), 1e-3, "setting:tolerance=1")
+        add(A, 2, 1, ("ho", 0.0, 0, 1e-8, 3), 1e-3, "setting:max_iterations=0")
+        add(A, 2, 1, ("ho", 0.0, 1, 1e-8, 3), 1e-3, "setting:max_iterations=1")
+        add(A, 3, 1, ("ho", 0.0, 100, 1.0, 3), 1e-3, "setting:tolerance=1")
+        add(A, 2, 1, ("ho", 0.0, 100, 1e-8, 6), 1e-3, "setting:order=6")
+        add(A, 3, 2, ("ho", 1e-3, 100, 1e-8, 3), 1e-6, "setting:rel_epsilon=1e-3")
+    # tolerance below the rounding floor (the private function's own default is 1e-20): the loop ends with EARLY_STOP; the iteration at
+    # which stagnation is detected is decided by rounding noise, so these cases are compared on X only
+    for n in (2, 3, 5, 8):
+        for p, q in ((2, 1), (4, 1), (3, 2)):
+            scale = 10 ** rng.uniform(-3, 3)
+            A = mfh.make_sym(mfh.spectrum(rng, n, "psd", scale, 10 ** rng.uniform(0, 3)), rng.randrange(1 << 40))
+            add(A, p, q, ("ho", 0.0, 100, 1e-20, rng.choice([2, 3, 4])), scale * 1e-3, "noisefloor")
+    # eps >= scale, the zero matrix through the iterative solvers, memory layout, offload option, second call
+    for n in (1, 3, 6):
+        scale = 10 ** rng.uniform(-3, 3)
+        A = mfh.make_sym(mfh.spectrum(rng, n, "psd", scale, 100.0), rng.randrange(1 << 40))
+        for cfg in [("eigen", False), ("eigen", True), ("newton", 100, 1e-8), ("ho", 0.0, 100, 1e-8, 3)]:
+            add(A, *rng.choice(iter_roots[:4]), cfg, scale * rng.choice([1.0, 30.0, 1e3]), "eps>=scale")
+            add(A * 0.0, *rng.choice(iter_roots[:4]), cfg, 10 ** rng.uniform(-6, 0), "zero")
+        if n > 1:
+            for cfg in [("eigen", k % 2 == 0), ("newton", 100, 1e-8), ("ho", 0.0, 100, 1e-8, 3)]:
+                add(A, 2, 1, cfg, scale * 1e-3, "layout", layout=("strided", "transposed")[k % 2], twice=True)
+                k += 1
+            add(A, 4, 1, ("eigen", False, "cpu"), scale * 1e-3, "offload:cpu")
+            add(A, 4, 1, ("eigen", True, "cpu"), scale * 1e-3, "offload:cpu")
+    return cases
+
+
 def spectrum_of(case: dict):
     """(lambda_min, lambda_max) of A in float64."""
     import torch
@@ -107,8 +187,8 @@ def c10_check_term(case: dict, obs: dict) -> str | None:
     if obs["kind"] != "ok" or case["p"] <= 0 or case["eps"] <= 0:
         return None
     n, p, q, eps = mfh.case_n(case), case["p"], case["q"], case["eps"]
-    if obs["X"].numel() != n * n or len(case["A"]) != n * n:
-        return None
+    if obs["X"].numel() != n * n or len(case["A"]) != n * n or p > 64 or q > 16:
+        return None          # (Fraction(r / multiplier) roots have 50-bit numerators: X^p is not computable; they are covered by the tie and the accuracy stream)
     X = obs["X"].reshape(n, n)
     if not bool(torch.isfinite(X).all()):
         return "false"
@@ -425,6 +505,34 @@ def gen_accuracy_inputs(rng, thorough: bool):
                     p, q = mfh.ROOTS[k % len(mfh.ROOTS)]
                 k += 1
                 out.append((A, p, q, cfg, eps, dtype, use_mp, False, kind))
+    # targeted classes (quantifier audit): structured / zero matrices, Fraction(r / exponent_multiplier) and large roots, eps >= scale,
+    # a float64 size beyond 16 with the 50-digit reference
+    int_roots = [(1, 1), (2, 1), (3, 1), (4, 1), (5, 1), (6, 1), (7, 1), (8, 1)]
+    eig_roots = mfh.ROOTS_EXTRA + [mfh.multiplier_root(r, m) for r in (2, 4, 8) for m in mfh.MULTIPLIERS[:3]]
+    for dtype in ("float64", "float32"):
+        u = U[dtype]
+        for kind in mfh.STRUCTURED + ["zero"]:
+            for cfg in CONFIGS:
+                n = (2, 3, 5, 8, 13)[k % 5]
+                scale = 10 ** rng.uniform(-6, 6)
+                A = mfh.structured(rng, n, kind, scale) if kind != "zero" else mfh.make_sym([0.0] * n, 0)
+                base = scale if kind != "zero" else 1.0
+                eps = base * 10 ** rng.uniform(-5, -1)
+                p, q = int_roots[k % 8] if cfg[0] == "newton" else (eig_roots[k % len(eig_roots)] if cfg[0] == "eigen" else (mfh.ROOTS + [(5, 1), (7, 1)])[k % 12])
+                k += 1
+                out.append((A, p, q, cfg, eps, dtype, True, False, "struct:" + kind if kind != "zero" else "zero"))
+        for cfg in CONFIGS:
+            n = (4, 9)[k % 2]
+            scale = 10 ** rng.uniform(-6, 6)
+            A = mfh.make_sym(mfh.spectrum(rng, n, "psd", scale, 1e3), rng.randrange(1 << 40))
+            p, q = int_roots[k % 4]
+            k += 1
+            out.append((A, p, q, cfg, scale * rng.choice([1.0, 30.0, 1e3]), dtype, True, False, "eps>=scale"))
+    for cfg in CONFIGS:
+        scale = 10 ** rng.uniform(-3, 3)
+        A = mfh.make_sym(mfh.spectrum(rng, 24, "psd", scale, 10 ** rng.uniform(2, 8 if cfg[0] == "eigen" else 5)), rng.randrange(1 << 40))
+        out.append((A, *int_roots[k % 4], cfg, scale * 1e-6 if cfg[0] != "eigen" else scale * 1e-9, "float64", True, False, "psd-n24-mp"))
+        k += 1
     # fast paths: diagonal flag and 1x1 against the same references
     for dtype in ("float64", "float32"):
         for n in (1, 4, 16):
@@ -448,9 +556,16 @@ def run(ck: Check) -> None:
     thorough = ck.tier == "thorough"
 
     # ---- 1. the tie ------------------------------------------------------------------------------
-    cases = gen_tie_cases(ck.rng, 3000 if thorough else 320)
+    cases = gen_tie_cases(ck.rng, 3000 if thorough else 320) + gen_targeted_tie_cases(ck.rng)
     observations = [mfh.observe(c) for c in cases]
-    agree_col = [mfh.agree_term(c, o) for c, o in zip(cases, observations)]
+    def agree_any(c, o):
+        if c["tag"] == "noisefloor" and o["kind"] == "ok" and o["iter"]:
+            n = mfh.case_n(c)
+            # flag and iteration count are decided by rounding noise here (an error of exactly 0 gives CONVERGED, otherwise EARLY_STOP): X only
+            return (f"(match {mfh.model_term(c, o)} with Ok out => mclose {coq_float(mfh.TOL_ITER)} {n}%nat (oX out) (rows {mfh.coq_rows(o['X'].reshape(n, n).tolist())}) "
+                    f"| _ => false end)")
+        return mfh.agree_term(c, o)
+    agree_col = [agree_any(c, o) for c, o in zip(cases, observations)]
     query_col = [mfh.query_term(c, o) for c, o in zip(cases, observations)]
     frag_col, xonly_col = [], []
     for c, o in zip(cases, observations):
@@ -490,6 +605,13 @@ def run(ck: Check) -> None:
                    "agree": agree_s[i], "query": query_s[i], **rep(i),
                    "theorems_not_transferring": ["C10_eigen_root_exact", "C10_enhance_stability_same", "C10_fastpaths_eq_general", "C10_newton_invariant",
                                                  "C10_converged_flag_sound", "C10_higher_order_guard", "C10_newton_rejects_fractional_root"]}, no_failing_input=True)
+
+    state_fail = [i for i, o in enumerate(observations) if o.get("input_mutated") or o.get("second_call_differs")]
+    if state_fail:
+        i = state_fail[0]
+        ck.report(None, f"matrix_inverse_root {'modified its input tensor' if observations[i].get('input_mutated') else 'returned a different matrix on a second call with the same tensor'} "
+                        f"(shape {cases[i]['shape']}, cfg {cases[i]['cfg']}, layout {cases[i].get('layout')})",
+                  {"kind": "property-fails", "predicate": "repeatability / input left untouched", "n_failing": len(state_fail), **rep(i)})
 
     # ---- 2. measured accuracy ----------------------------------------------------------------------
     ainputs = gen_accuracy_inputs(ck.rng, thorough)
@@ -655,6 +777,74 @@ def run(ck: Check) -> None:
             "outcomes": dict(sorted(outcomes.items())),
         },
     })
+    # ---- quantifier audit: measured counts of every input class the property names or plainly allows -------
+    def cfgname(c):
+        return ("diagflag" if c["is_diag"] else "1x1" if mfh.case_n(c) == 1 else c["cfg"][0] + (":stab" if c["cfg"][0] == "eigen" and c["cfg"][1] else ""))
+    okc = [c for c, o in zip(cases, observations) if o["kind"] == "ok"]
+    acc = ainputs
+    audit = {
+        **{"tie/config:" + k: sum(1 for c in cases if cfgname(c) == k) for k in ("eigen", "eigen:stab", "newton", "ho", "unknown", "diagflag", "1x1")},
+        "tie/zero_matrix": sum(1 for c in cases if c["tag"].startswith("zero")),
+        "tie/rank_deficient": sum(1 for c in cases if c["tag"].startswith("rankdef")),
+        "tie/repeated_eigenvalues": sum(1 for c in cases if c["tag"].startswith("repeated")),
+        **{"tie/struct:" + k: sum(1 for c in cases if c["tag"] == "struct:" + k) for k in mfh.STRUCTURED},
+        "tie/diagonal_flag_non_ascending_diagonal": sum(1 for c in cases if c["tag"] == "diagflag:nonascending"),
+        "tie/root_fractional": sum(1 for c in cases if c["q"] > 1 and c["q"] <= 1000),
+        "tie/root=Fraction(r/exponent_multiplier)": sum(1 for c in cases if c["q"] > 1000),
+        "tie/root<1": sum(1 for c in cases if 0 < c["p"] < c["q"]),
+        "tie/root>=10": sum(1 for c in cases if c["p"] >= 10 * c["q"]),
+        **{f"tie/iterative_integer_root_{r}": sum(1 for c in cases if c["cfg"][0] in ("newton", "ho") and not c["is_diag"] and c["q"] == 1 and c["p"] == r) for r in range(1, 9)},
+        "tie/newton_fractional_root(ValueError)": sum(1 for c in cases if c["cfg"][0] == "newton" and c["q"] > 1 and not c["is_diag"] and mfh.case_n(c) > 1),
+        "tie/max_iterations<=1": sum(1 for c in cases if (c["cfg"][0] == "newton" and c["cfg"][1] <= 1) or (c["cfg"][0] == "ho" and c["cfg"][2] <= 1)),
+        "tie/tolerance_0_or_1": sum(1 for c in cases if (c["cfg"][0] == "newton" and c["cfg"][2] in (0.0, 1.0)) or (c["cfg"][0] == "ho" and c["cfg"][3] in (0.0, 1.0))),
+        **{f"tie/ho_order_{o}": sum(1 for c in cases if c["cfg"][0] == "ho" and c["cfg"][4] == o) for o in (2, 3, 4, 5, 6)},
+        "tie/ho_rel_epsilon>0": sum(1 for c in cases if c["cfg"][0] == "ho" and c["cfg"][1] > 0),
+        "tie/tolerance_below_rounding_floor(X compared; flag decided by noise)": sum(1 for c in cases if c["tag"] == "noisefloor"),
+        "tie/eps>=scale": sum(1 for c in cases if c["tag"] == "eps>=scale"),
+        "tie/non_contiguous_input": sum(1 for c in cases if c.get("layout")),
+        "tie/eigen_decomp_offload_device=cpu": sum(1 for c in cases if c["cfg"][0] == "eigen" and len(c["cfg"]) > 2),
+        "tie/second_call_same_tensor": sum(1 for c in cases if c.get("twice")),
+        "tie/input_checked_unmodified": len(cases),
+        "tie/flag:REACHED_MAX_ITERS": sum(1 for o in observations if o["iter"] and o["iter"][-1][0] == "REACHED_MAX_ITERS"),
+        "tie/flag:EARLY_STOP": sum(1 for o in observations if o["iter"] and o["iter"][-1][0] == "EARLY_STOP"),
+        "tie/flag:CONVERGED": sum(1 for o in observations if o["iter"] and o["iter"][-1][0] == "CONVERGED"),
+        "tie/ho_ArithmeticError": sum(1 for c, o in zip(cases, observations) if c["cfg"][0] == "ho" and o["kind"] == "raise" and o.get("exc") == "ArithmeticError"),
+        **{f"accuracy/{dt}/{k}": sum(1 for a in acc if a[5] == dt and a[3][0] == k[0] and (k[0] != "eigen" or bool(a[3][1]) == k[1]) and not a[7])
+           for dt in ("float32", "float64") for k in (("eigen", False), ("eigen", True), ("newton",), ("ho",))},
+        **{f"accuracy/{dt}/n=1": sum(1 for a in acc if a[5] == dt and a[0].shape[0] == 1) for dt in ("float32", "float64")},
+        "accuracy/float64/n>16(50-digit reference)": sum(1 for a in acc if a[5] == "float64" and a[0].shape[0] > 16),
+        "accuracy/float32/n>=96(float64 reference)": sum(1 for a in acc if a[5] == "float32" and a[0].shape[0] >= 96),
+        "accuracy/float32/n=128": sum(1 for a in acc if a[5] == "float32" and a[0].shape[0] == 128),
+        "accuracy/rank_deficient": sum(1 for a in acc if a[8] == "rankdef"),
+        "accuracy/zero_matrix": sum(1 for a in acc if a[8] == "zero"),
+        "accuracy/structured": sum(1 for a in acc if a[8].startswith("struct:")),
+        "accuracy/eps>=scale": sum(1 for a in acc if a[8] == "eps>=scale"),
+        "accuracy/root_fractional": sum(1 for a in acc if 1 < a[2] <= 1000),
+        "accuracy/root=Fraction(r/exponent_multiplier)": sum(1 for a in acc if a[2] > 1000),
+        "accuracy/diagonal_flag": sum(1 for a in acc if a[7]),
+        "guard_clause/float32": sum(1 for g in ginputs if g[7] == "float32"),
+        "guard_clause/float64": sum(1 for g in ginputs if g[7] == "float64"),
+        "guard_clause/n>=32": sum(1 for g in ginputs if g[0].shape[0] >= 32),
+        "guard_clause/rank_deficient_tiny_eps": sum(1 for g in ginputs if g[8].startswith("rankdef")),
+        "converged_clause/structured": sum(1 for c in cinputs if not c[0].startswith("random")),
+        "converged_clause/eps=0": sum(1 for c in cinputs if c[4] == 0.0),
+        **{f"converged_clause/newton_root_{r}": sum(1 for c in cinputs if c[5] == "newton" and c[2] == r) for r in (1, 3, 5, 7, 8)},
+        "converged_clause/ho_fractional_root": sum(1 for c in cinputs if c[5] == "ho" and c[3] > 1),
+    }
+    ck.coverage["quantifier_audit"] = audit
+    ck.coverage["not_exercised"] = {
+        "float16 / bfloat16 inputs": "outside the quantifier (float32 and float64); no CPU eigh kernel; the matmul-only solvers would run but no clause speaks about them",
+        "value-level model tie in float32": "the tie is binary64 only (DESIGN 2.3); float32 is covered by the accuracy, guard-clause and converged-flag streams on the real code",
+        "n > 12 (eigen) / n > 8 (iterative) in the model tie": "vm_compute cost; sizes up to 128 are covered by the accuracy stream, up to 64 by the guard-clause stream",
+        "float64 accuracy beyond n = 24": "no reference more accurate than float64 other than mpmath, whose eigsy costs ~n^3 (n = 24: 0.6 s, n = 64: > 10 s)",
+        "condition numbers beyond 0.1/u": "excluded by the quantifier (up to the dtype's resolution)",
+        "tolerance = 0 for the higher-order solver in the model tie": "its stagnation test new_error == error is decided by rounding noise; covered by the converged-flag stream on the real code instead",
+        "exponent-multiplier roots with the iterative solvers": "the optimizer applies exponent_multiplier only to EigenConfig (getattr default 1); a 50-bit numerator makes matrix_power(M, p) meaningless",
+        "non-positive roots with Newton / higher-order": "outside the property (positive rational root); the code returns NaNs / fails in math.log2 (reported in the builder's notes), model marks OutOfScope",
+        "order < 2": "documented as unsupported; model marks OutOfScope",
+        "is_diagonal=True with a non-diagonal matrix": "the flag is computed by the caller with check_diagonal; a wrong flag is outside the contract",
+        "CUDA / tf32 / eigen_decomp_offload_device other than cpu": "no accelerator in the sandbox",
+    }
     ck.assumptions += [
         "torch.linalg.eigh returns (L, Q) with A = Q diag(L) Q^T, Q orthogonal (Section hypothesis eigh_contract; measured by ./check C11)",
         "torch.pow on positive bases is the real power function",
